@@ -68,6 +68,12 @@ func (f *frame) call(x *ssa.Call, cc *ssa.CallCommon, pc *Term, st State) {
 	if pre == nil {
 		return
 	}
+	f.siteClauses(x, x, cc, pc, pre, st)
+}
+
+// siteClauses applies the "at call N of KEY ..." clauses of the function under
+// contract to one call instruction (a call, or a go statement: x is nil then).
+func (f *frame) siteClauses(in ssa.Instruction, x *ssa.Call, cc *ssa.CallCommon, pc *Term, pre, st State) {
 	key := callKey(cc)
 	ord := -1
 	for _, site := range f.spec.Sites {
@@ -75,7 +81,7 @@ func (f *frame) call(x *ssa.Call, cc *ssa.CallCommon, pc *Term, st State) {
 			continue
 		}
 		if ord < 0 {
-			ord = siteOrdinal(f.fn, x, key)
+			ord = siteOrdinal(f.fn, in, key)
 		}
 		if site.Ord != ord {
 			continue
@@ -84,8 +90,8 @@ func (f *frame) call(x *ssa.Call, cc *ssa.CallCommon, pc *Term, st State) {
 		// old(..) is the function's entry state; argN are the call's arguments
 		// (receiver first); result/resultN its results
 		env := f.newSpecEnv(st, f.entry)
-		env.at = x.Block()
-		env.atInstr = x
+		env.at = in.Block()
+		env.atInstr = in
 		ai := 0
 		if cc.IsInvoke() {
 			env.vars["arg0"] = f.get(cc.Value)
@@ -142,11 +148,13 @@ func (f *frame) call(x *ssa.Call, cc *ssa.CallCommon, pc *Term, st State) {
 				}
 			}
 		}
-		if rv, ok := f.vals[x]; ok {
-			if rv.Tuple != nil {
-				env.results = rv.Tuple
-			} else {
-				env.results = []Val{rv}
+		if x != nil {
+			if rv, ok := f.vals[x]; ok {
+				if rv.Tuple != nil {
+					env.results = rv.Tuple
+				} else {
+					env.results = []Val{rv}
+				}
 			}
 		}
 		switch site.Kind {
@@ -156,7 +164,7 @@ func (f *frame) call(x *ssa.Call, cc *ssa.CallCommon, pc *Term, st State) {
 			// assumptions use the state after it)
 			env.st = pre
 			if g := f.safeEval(env, site.C); g != nil {
-				f.check("assert", f.oblName(fmt.Sprintf("call#%d(%s)/assert%s", ord, key, clauseTag(site.C, 0))), pc, g, x.Pos(), site.C)
+				f.check("assert", f.oblName(fmt.Sprintf("call#%d(%s)/assert%s", ord, key, clauseTag(site.C, 0))), pc, g, in.Pos(), site.C)
 			}
 		case "assume":
 			if g := f.safeEval(env, site.C); g != nil {
@@ -410,7 +418,11 @@ func (f *frame) applyContract(sp *FuncSpec, callee *ssa.Function, args []Val, pc
 		// the computed mod-set is coarse; fields the caller declares preserved
 		// (closed by structural writer obligations the callee cannot reach) stay
 		kept := f.preservedHeaps(callee)
+		keepGhosts := f.asyncBoundary(callee)
 		for _, h := range ms.list() {
+			if strings.HasPrefix(h, "ghost$") && keepGhosts[h[6:]] {
+				continue
+			}
 			if !kept[h] {
 				mods = append(mods, h)
 			}
